@@ -1144,4 +1144,180 @@ theorem count_true_eq (l : List Bool) (g : Nat → Bool) (h : ∀ p, p < l.lengt
   intro x _
   simp
 
+/-! ## the singleton root, and the invariant through one evaluation -/
+
+/-- the singleton-with-zero root: `combine(value, zero)` -/
+theorem singleton_zero_value {κ α : Type} (f : α → α → α) (zero : Option α) (src : κ → Option α) (t : Tree κ)
+    (hs : Shape true t) (k : κ) (hk : t.keys = [k]) :
+    rootOut f true zero src t =
+      match src k, zero with
+      | some v, some z => some (f v z)
+      | _, _ => none := by
+  have hn : t.keys.length = 1 := by rw [hk]; rfl
+  have hcap := hs.zero_cap rfl (by omega)
+  rcases hs.cap_pow with hc | ⟨e, hc⟩
+  · omega
+  · have he : 1 ≤ e := by
+      apply Classical.byContradiction
+      intro h
+      have : e = 0 := by omega
+      subst this
+      simp at hc; omega
+    have hcap2 : 2 ≤ 2 ^ e := by rw [← hc]; exact hcap
+    have hcl : t.combiners.length = 2 ^ e - 1 := by rw [hs.comb_len, hc, internalCount_pow]
+    have hcn : 0 < 2 ^ e - 1 → t.combiners[0]? = some (neededAt true (2 ^ e) 1 0) := by
+      have := hs.comb_needed 0
+      rw [hc, hn, internalCount_pow] at this
+      exact this
+    unfold rootOut
+    rw [hn, hc]
+    have hpos : 0 < 2 ^ e - 1 := by omega
+    have hroot : rootAgg true (2 ^ e) 1 t.combiners.length = .node 0 := by
+      unfold rootAgg
+      have : (t.combiners.length != 0) = true := by rw [hcl]; simp; omega
+      simp [this]
+    rw [hroot]
+    have hL : resolveClosed (2 ^ e) 1 (2 * 0 + 1) = .leaf 0 := by
+      have := resolveClosed_eq_spec e 1 0 1 he (by simp)
+      simp only [Nat.pow_one, Nat.add_zero, Nat.zero_mul] at this
+      rw [show 2 * 0 + 1 = 2 - 1 from rfl, this]
+      unfold spec
+      have hp := two_pow_pos' (e - 1)
+      have : min (2 ^ (e - 1)) (1 - 0) = 1 := by omega
+      simp [this]
+    have hR : resolveClosed (2 ^ e) 1 (2 * 0 + 2) = .empty := by
+      have := resolveClosed_eq_spec e 1 1 1 he (by simp)
+      simp only [Nat.pow_one, Nat.one_mul] at this
+      rw [show 2 * 0 + 2 = 2 + 1 - 1 from rfl, this]
+      have hp := two_pow_pos' (e - 1)
+      exact (spec_empty_iff _ _ _ _).mpr (by omega)
+    have hlive : combLive t.combiners 0 = true := by
+      unfold combLive
+      rw [hcn hpos]
+      simp [neededAt]
+    simp only [aggOut]
+    rw [nodeOut_eq f _ (2 ^ e) 1 _ _ 0 (by rw [internalCount_pow]; exact hpos) hlive
+      (by intro q hq; rw [hL] at hq; cases hq) (by intro q hq; rw [hR] at hq; cases hq)]
+    rw [hL, hR]
+    simp only [aggOut, leafVal, hk, List.getElem?_cons_zero, ↓reduceIte]
+    all_goals try (cases src k <;> cases zero <;> rfl)
+
+
+section Eval
+variable {κ : Type} [DecidableEq κ]
+
+omit [DecidableEq κ] in
+theorem Shape.of_eq {hz : Bool} {a b : Tree κ} (h : Shape hz a) (hk : b.keys = a.keys) (hc : b.cap = a.cap)
+    (hm : b.combiners = a.combiners) : Shape hz b := by
+  refine ⟨?_, ?_, ?_, ?_, ?_, ?_⟩
+  · rw [hc]; exact h.cap_pow
+  · rw [hc, hk]; exact h.live_le
+  · rw [hk]; exact h.nodup
+  · rw [hc, hm]; exact h.comb_len
+  · rw [hc, hm, hk]; exact h.comb_needed
+  · rw [hc, hk]; exact h.zero_cap
+
+omit [DecidableEq κ] in
+theorem destroyPrev_fields (now : Nat) (t : Tree κ) :
+    (destroyPrevBefore now t).keys = t.keys ∧ (destroyPrevBefore now t).cap = t.cap ∧
+    (destroyPrevBefore now t).combiners = t.combiners ∧ (destroyPrevBefore now t).primed = t.primed ∧
+    (destroyPrevBefore now t).published = t.published := by
+  unfold destroyPrevBefore
+  split <;> exact ⟨rfl, rfl, rfl, rfl, rfl⟩
+
+/-- `reduce_reconcile` (leaf reconcile + structural rebuild, whichever branch is taken) preserves the
+    representation invariant -/
+theorem evalReconcile_shape (hz : Bool) (now : Nat) (t : Tree κ) (available modified : Bool)
+    (removed present : List κ) (hs : Shape hz t) :
+    Shape hz (evalReconcile hz now t available modified removed present) := by
+  unfold evalReconcile
+  simp only
+  have hfull : ∀ x : Tree κ, x.cap = t.cap → x.combiners = t.combiners → x.keys.Nodup →
+      Shape hz (rebuild hz now x true) := by
+    intro x hc hm hn
+    apply rebuild_shape hz now x true
+    · rw [hc]; exact hs.cap_pow
+    · exact hn
+    · rw [hm, hc]; exact hs.comb_len
+    · intro h; cases h
+  by_cases hav : available = true
+  · simp only [hav, ↓reduceIte]
+    by_cases hpm : (!t.primed || modified) = true
+    · simp only [hpm, ↓reduceIte]
+      unfold reconcileLeaves
+      by_cases hpr : t.primed = true
+      · -- sparse reconcile of a primed tree
+        simp only [hpr, Bool.not_true, Bool.false_eq_true, ↓reduceIte, Bool.or_false]
+        have hinv : LeafInv t (present.foldl addKey (removed.foldl removeKey t)) :=
+          ((LeafInv.refl t hs.nodup).foldl_removeKey removed).foldl_addKey present
+        generalize (present.foldl addKey (removed.foldl removeKey t)) = t2 at *
+        split
+        · next hcond =>
+          by_cases hpub : t.published = true
+          · -- incremental rebuild
+            simp only [hpub, Bool.not_true]
+            apply rebuild_shape hz now _ false
+            · show IsCap t2.cap
+              rw [hinv.cap]; exact hs.cap_pow
+            · exact hinv.nodup
+            · show t2.combiners.length = internalCount t2.cap
+              rw [hinv.combiners, hinv.cap]; exact hs.comb_len
+            · intro _
+              refine ⟨t.keys.length, ?_, hinv.covers, ?_⟩
+              · show t.keys.length ≤ t2.cap
+                rw [hinv.cap]; exact hs.live_le
+              · intro p hp
+                show t2.combiners[p]? = some (neededAt hz t2.cap t.keys.length p)
+                rw [hinv.combiners, hinv.cap]
+                exact hs.comb_needed p (by rw [← hinv.cap]; exact hp)
+          · have hpf : t.published = false := by simpa using hpub
+            simp only [hpf, Bool.not_false]
+            exact hfull _ hinv.cap hinv.combiners hinv.nodup
+        · next hcond =>
+          -- nothing structural happened: the leaves are unchanged
+          simp only [Bool.or_eq_true, Bool.not_eq_true', not_or, Bool.not_eq_false] at hcond
+          have hsl : t2.structLeaves = [] := by
+            have := hcond.1
+            simpa using this
+          exact hs.of_eq (hinv.quiet hsl) hinv.cap hinv.combiners
+      · -- first (full) reconcile
+        have hpf : t.primed = false := by simpa using hpr
+        simp only [hpf, Bool.not_false, ↓reduceIte, Bool.true_or, Bool.or_true]
+        have hinv : LeafInv (clearLeaves t) (present.foldl addKey (clearLeaves t)) :=
+          (LeafInv.refl (clearLeaves t) (by simp [clearLeaves])).foldl_addKey present
+        exact hfull _ hinv.cap hinv.combiners hinv.nodup
+    · simp only [hpm, Bool.false_eq_true, ↓reduceIte]
+      split
+      · next hpub =>
+        have hpf : t.published = false := by simpa using hpub
+        simp only [hpf, Bool.not_false]
+        exact hfull t rfl rfl hs.nodup
+      · exact hs
+  · simp only [hav, Bool.false_eq_true, ↓reduceIte]
+    split
+    · exact hfull _ rfl rfl (by simp [clearLeaves])
+    · split
+      · next hpub =>
+        have hpf : t.published = false := by simpa using hpub
+        simp only [hpf, Bool.not_false]
+        exact hfull t rfl rfl hs.nodup
+      · exact hs
+
+/-- one evaluation of the reduce node preserves the representation invariant -/
+theorem evalStructure_shape (hz : Bool) (now : Nat) (t0 : Tree κ) (available modified : Bool)
+    (removed present : List κ) (hs0 : Shape hz t0) :
+    Shape hz (evalStructure hz now t0 available modified removed present) := by
+  obtain ⟨e1, e2, e3, _, _⟩ := destroyPrev_fields now t0
+  unfold evalStructure
+  apply evalReconcile_shape
+  exact hs0.of_eq e1 e2 e3
+
+omit [DecidableEq κ] in
+theorem shape_init (hz : Bool) : Shape hz ({} : Tree κ) := by
+  refine ⟨Or.inl rfl, by simp, by simp, by simp [internalCount], ?_, ?_⟩
+  · intro p hp; simp [internalCount] at hp
+  · intro _ h; simp at h
+
+end Eval
+
 end HgVerif.Reduce
